@@ -18,9 +18,9 @@ LEVEL = "fault_enumeration"
 RPCS = (1, 2, 4, 5, 1024)
 
 
-def make_product(tc):
+def make_product(tc, P=3):
     level = "1.1" if tc == "C*8" else "1.5"
-    images = [synth.image_spec("HH", None, 4, 3, tc), synth.image_spec("HV", None, 2, 2, tc)]
+    images = [synth.image_spec("HH", None, 4, P, tc), synth.image_spec("HV", None, 2, 2, tc)]
     spec = synth.product_spec(level, images=images)
     files, _ = synth.build(spec)
     return spec, files
@@ -104,7 +104,7 @@ def execute_seam(case):
     from ceos_alos2 import xarray as cx
 
     tc, rpc = case["type"], case["rpc"]
-    spec, files = make_product(tc)
+    spec, files = make_product(tc, case.get("P", 3))
     name = synth.file_names(spec)["img"][0]
     full = files[name]
     im = spec["images"][0]
@@ -117,11 +117,16 @@ def execute_seam(case):
             try:
                 group = sar_image.open_image(mapper, name, use_cache=False, records_per_chunk=rpc)
                 ds = cx.to_dataset(group)
-                vals = np.asarray(ds["data"].values)
-                ok = vals.shape == want.shape and vals.tobytes() == want.tobytes() and ds["rows"].shape == (im["lines"],)
-                out = "returned-complete" if ok else "returned-wrong"
             except BaseException as e:
                 out = f"raises:{type(e).__name__}"
+            else:
+                # the open returned: a load that raises now means fewer readable lines than declared
+                try:
+                    vals = np.asarray(ds["data"].values)
+                    ok = vals.shape == want.shape and vals.tobytes() == want.tobytes() and ds["rows"].shape == (im["lines"],)
+                    out = "returned-complete" if ok else "returned-wrong"
+                except BaseException as e:
+                    out = "returned-unloadable"
             outcomes[out] = outcomes.get(out, 0) + 1
             bad = (cut < len(full) and not out.startswith("raises")) or (cut == len(full) and out != "returned-complete")
             if bad:
@@ -309,6 +314,13 @@ def plan(tier):
                 for fs in ("mcfs", "local", "memory", "amcfs"):
                     for rpc in (1, 1024):
                         cases.append({"fn": "execute_missing", "type": tc, "missing": missing, "use_cache": use_cache, "fs": fs, "rpc": rpc})
+    # record lengths of 720 / 360 / 240 bytes (the descriptor length is a multiple of them): cuts at and around every record boundary
+    for tc, P in (("IU2", 264), ("IU2", 84), ("IU2", 24), ("C*8", 22)):
+        reclen = synth.TYPE_INFO[tc]["prefix"] + P * synth.TYPE_INFO[tc]["bps"]
+        n = 720 + 4 * reclen
+        cuts = sorted({c for k in range(5) for c in range(720 + k * reclen - 3, 720 + k * reclen + 4) if 0 <= c <= n} | set(range(0, n + 1, 97)) | {720 + 3 * reclen + reclen // 2, n - 1, n})
+        for rpc in RPCS:
+            cases.append({"fn": "execute_seam", "type": tc, "rpc": rpc, "file": "img", "cuts": cuts, "P": P})
     for tc in ("IU2", "C*8"):
         spec, files = make_product(tc)
         names = synth.file_names(spec)
@@ -329,7 +341,7 @@ def run(res, tier, seed):
         "every truncation length 0..size of a 4x3 image x rpc{1,2,4,5,1024} x type through sar_image.open_image, and through"
         " open_alos2 at every length (thorough) or all record/field boundaries +-1 + every 16th byte (quick), also on an async fsspec filesystem; leader and"
         " volume directory cut at every length (thorough) / every layout field boundary +-1 + stride (quick); every single"
-        " missing file x use_cache x 3 filesystems; every file cut in place after an intact open in the same process (modification time kept / new; local and mcfs); images of 19 / 19 / 72 MB cut at the boundaries +-1 of the first, middle and last records, inside their" " prefixes and pixel data and at every power of two 2^20..2^27 +-1, x rpc {default, 8, 64, 4096}. A case is a batch of cuts of one file; all are non-trivial (each cut is"
+        " missing file x use_cache x 3 filesystems; images whose record length is 720 / 360 / 240 bytes cut around every record boundary; every file cut in place after an intact open in the same process (modification time kept / new; local and mcfs); images of 19 / 19 / 72 MB cut at the boundaries +-1 of the first, middle and last records, inside their" " prefixes and pixel data and at every power of two 2^20..2^27 +-1, x rpc {default, 8, 64, 4096}. A case is a batch of cuts of one file; all are non-trivial (each cut is"
         " a distinct byte length and is executed on the real code)."
     )
     res.assumptions = ["a truncated file is modelled as a shorter file (reads return fewer bytes), as on local and object stores", "promptness = number of filesystem events <= intact open (deterministic); wall time is not an oracle"]
